@@ -410,6 +410,14 @@ class Impl:
         if c == 4:
             pt, rs = op[1], SS(op[2])
             return self._b(e.remove_named_policies("p", rs) if pt == 0 else e.remove_named_grouping_policies(PT[pt][1], rs))
+        if c == 39:
+            # the role manager of g is REPLACED by a fresh one of the same kind and the links are rebuilt from the policy
+            # (for the model this is just build_role_links)
+            from casbin.rbac import default_role_manager as drm
+            old = e.get_role_manager()
+            e.set_role_manager(type(old)(10))
+            e.build_role_links()
+            return [0, []]
         if c == 9:
             # "remove everything", written the obvious way: the batch call is handed the very list the getter returned
             pt = op[1]
@@ -555,11 +563,13 @@ def canon_model_obs(op, obs):
 def concretise(rows, load_first, ops, obs):
     """ops as the MODEL and the specs see them: op 9 (a batch removal handed the getter's own list) becomes the batch
     removal of the rules that were stored just before it, as observed on the implementation"""
-    if not any(o[0] == 9 for o in ops):
+    if not any(o[0] in (9, 39) for o in ops):
         return ops
     out = []
     for i, op in enumerate(ops):
-        if op[0] == 9:
+        if op[0] == 39:
+            out.append((34,))
+        elif op[0] == 9:
             pt = op[1]
             if i > 0 and i - 1 < len(obs):
                 cur = [list(r) for r in obs[i - 1][3 + pt]]
@@ -724,7 +734,7 @@ def pretty_op(op):
              18: "delete_roles_for_user", 19: "add_role_for_user_in_domain", 20: "delete_roles_for_user_in_domain",
              30: "clear_policy", 31: "load_policy", 32: "load_policy[adapter fails after n rows]", 33: "save_policy",
              34: "build_role_links", 35: "enable_auto_save", 36: "enable_auto_build_role_links",
-             37: "enable_auto_notify_watcher", 38: "enable_enforce", 50: "enforce", 51: "enforce_ex", 52: "get_policy",
+             37: "enable_auto_notify_watcher", 38: "enable_enforce", 39: "set_role_manager(fresh)+build_role_links", 50: "enforce", 51: "enforce_ex", 52: "get_policy",
              53: "get_filtered_policy", 54: "has_policy", 55: "get_roles_for_user", 56: "get_users_for_role",
              57: "get_roles_for_user_in_domain", 58: "get_users_for_role_in_domain", 59: "rm.has_link",
              60: "get_implicit_roles_for_user", 61: "get_implicit_permissions_for_user",
@@ -763,7 +773,7 @@ def pretty_op(op):
 DEFAULT_WEIGHTS = dict(p_add=6, p_add_many=4, p_remove=4, p_remove_many=3, p_remove_filtered=2, p_update=3,
                        p_update_many=2, p_update_filtered=0, g_add=6, g_add_many=4, g_remove=4, g_remove_many=3,
                        g_remove_filtered=2, rbac=5, clear=0.5, load=1, save=1, build=0.5, flags=0, query=6, probe=1.5,
-                       short_g=0, long_g=0, alias_remove=0)
+                       short_g=0, long_g=0, alias_remove=0, rm_swap=0)
 
 
 class Gen:
@@ -923,6 +933,8 @@ class Gen:
                 for r in b:
                     self.present.remove(r)
             return [(4, 0, b)]
+        if n == "rm_swap":
+            return [(39,)]
         if n == "alias_remove":
             pt = 0 if (not self.kind.g or rng.random() < 0.5) else self.gpt()
             if pt == 0:
